@@ -93,7 +93,7 @@ class Adapter(EnvAdapter):
         ts = T_SWEEP_QUICK_FEW if tier == "quick" else T_SWEEP_THOROUGH_FEW
         return self._base_configs(tier) + [
             dict(id=f"rw5a2_t{t}_sweep", ctor=dict(generator="random_walk", grid_size=5, num_agents=2, time_limit=t), episodes=1,
-                 max_steps=t + 2, policies=["stall"], probe_every=0, props=["C03", "C11"]) for t in ts]
+                 max_steps=t + 2, policies=["stall"], probe_every=0, props=["C01", "C03", "C11", "C12"]) for t in ts]
 
     def _base_configs(self, tier):
         # solve / greedy seek completion, stall survives to the time limit, collide seeks head-on collisions
